@@ -8,3 +8,4 @@ Fixpoint mismatches_from {A} (ok : A -> bool) (i : N) (l : list A) : list N :=
   | x :: r => if ok x then mismatches_from ok (N.succ i) r else i :: mismatches_from ok (N.succ i) r
   end.
 Definition mismatches {A} (ok : A -> bool) (l : list A) : list N := mismatches_from ok 0%N l.
+
